@@ -158,7 +158,7 @@ def gen_random(rng):
             elif kind == "D":
                 judg.append((v, rng.choice(["D:%d" % rng.randrange(n), "D:%d" % rng.randrange(n), "Bytes", word(rng)])))
             elif kind == "F":
-                judg.append((v, "F:%d:%d" % (rng.randrange(n), rng.choice([3, 3, 3, 4]))))
+                judg.append((v, "F:%d:%d" % (rng.randrange(n), rng.choice([0, 3, 3, 3, 4]))))
             else:
                 judg.append((v, rng.choice([packed(rng, n), packed(rng, n), word(rng), "Bytes"])))
     rng.shuffle(judg)
@@ -255,7 +255,7 @@ def gen_congruence(rng, share=0.0):
             return ("M", skel(d - 1), skel(d - 1))
         if r < 0.8:
             return ("D", skel(d - 1))
-        return ("F", skel(d - 1), rng.choice([2, 3, 5]))
+        return ("F", skel(d - 1), rng.choice([0, 0, 1, 2, 3, 5, 2 ** 128]))
     sk = skel(rng.randrange(1, 4))
     judg = []
     counter = [0]
@@ -322,7 +322,7 @@ def gen_truth(rng):
         elif r < 0.88:
             kinds.append(("D", rng.randrange(len(groups))))
         else:
-            kinds.append(("F", rng.randrange(len(groups)), rng.choice([2, 3, 5])))
+            kinds.append(("F", rng.randrange(len(groups)), rng.choice([0, 0, 1, 2, 3, 5, 2 ** 128])))
     judg = []
     for g, k in zip(groups, kinds):
         # connect the group by equalities (a random spanning tree, plus extras)
